@@ -464,6 +464,21 @@ class LPResult:
         raise Unsupported("res.%s" % name)
 
 
+def _lp_key(v):
+    """structural identity of an LP argument (z3 terms are hash-consed: equal ids iff the same term)"""
+    if isinstance(v, LinRow):
+        return ("row", tuple((_lp_key(k), _lp_key(base)) for k, base in v.terms))
+    if is_z3(v):
+        return ("z", v.get_id())
+    if isinstance(v, bool):
+        return ("b", v)
+    if isinstance(v, (int, float)):
+        return ("n", float(v))
+    if isinstance(v, (list, tuple)):
+        return tuple(_lp_key(x) for x in v)
+    return ("o", id(v))
+
+
 class LP:
     """Installs `linprog` in an interpreter as its assumed contract and logs the calls."""
 
@@ -475,6 +490,11 @@ class LP:
         # (HiGHS presolve does that on badly scaled rows) - an answer that carries no information and no optimum
         self.gives_up = gives_up
         self.on_call = None  # optional callback(call): e.g. to assume instances of A4's quantified parts at known points
+        # A4 speaks of the problem, not of the solver options: the same problem asked again (the code under contract
+        # retries with other options when an answer is not "optimal" or "unbounded") gets the same answer - also outside
+        # A4, where a solver that gave up gives up again. What the retries achieve on the real solver is seen natively only.
+        self.memo = {}
+        self.repeats = 0
 
     def install(self, modname="pacti.terms.polyhedra.polyhedra"):
         self.h.I.load_module(modname)
@@ -510,6 +530,10 @@ class LP:
         if len(bs) != len(rows):
             I.raise_native(ValueError, None, "Invalid input for linprog: b_ub must have as many rows as A_ub")
         ctx = self.h.ctx
+        key = (_lp_key(crow), _lp_key(rows), _lp_key(bs))
+        if key in self.memo:
+            self.repeats += 1
+            return self.memo[key][0]
         idx = len(self.calls)
         # A4: status is 0, 2 or 3
         options = [0, 2, 3] + ([1, 4, -3] if self.gives_up else [])
@@ -518,7 +542,9 @@ class LP:
         call.gave_up = status in (1, 4, -3)
         self.calls.append(call)
         if call.gave_up:
-            return LPResult(call, None)
+            res = LPResult(call, None)
+            self.memo[key] = (res, (crow, rows, bs))
+            return res
         slack = None
         explicit = isinstance(space, ExplicitSpace)
         if status == 0:
@@ -556,9 +582,22 @@ class LP:
                 facts.append(z3.Sum([lam[i] * to_real(rows[i][j]) for i in range(len(rows))] + [z3.RealVal(0)]) == 0)
             facts.append(z3.Sum([lam[i] * to_real(bs[i]) for i in range(len(rows))] + [z3.RealVal(0)]) < 0)
             self.h.assume(z3.And(*facts), "A4.infeasibility_certificate")
+        if not explicit:
+            # instances of A4's universally quantified parts at the points the other answers speak of (sound consequences;
+            # without them an abstract path may combine answers that no solver can give together, e.g. "infeasible" and,
+            # for the same system asked differently, a feasible point)
+            for o in self.calls[:-1]:
+                if o.gave_up:
+                    continue
+                if o.witness is not None:
+                    self.h.assume(call.inst(o.witness), "A4.instance_at_another_answer")
+                if call.witness is not None:
+                    self.h.assume(o.inst(call.witness), "A4.instance_at_another_answer")
         if self.on_call is not None:
             self.on_call(call)
         if explicit and not ctx.feasible(z3.BoolVal(True)):
             # the answer contradicts its own certificate on this path (e.g. "unbounded" over a box): not a path
             raise PathInfeasible("LP answer %d impossible here" % status)
-        return LPResult(call, slack)
+        res = LPResult(call, slack)
+        self.memo[key] = (res, (crow, rows, bs))  # (the arguments are kept alive: ids of z3 terms are reused otherwise)
+        return res
